@@ -73,6 +73,7 @@ def normalise(sc):
     sc.setdefault("dev", [])
     sc.setdefault("couple", [])
     sc.setdefault("fault", 0)
+    sc.setdefault("splits", [])
     return sc
 
 
@@ -325,7 +326,7 @@ def to_cfg(sc):
         return [F(v) for v in lst]
     cfg = {"N": sc["N"], "K": sc["K"], "P": len(set(sc["prio"])), "prio": list(sc["prio"]),
            "syscap": sc["syscap"], "T": F(sc["T"]) if sc["T"] < INF else INF, "stop": sc["stop"], "maxc": sc["maxc"],
-           "tracker": sc["tracker"], "observed": list(sc["observed"]), "groups": [list(g) for g in sc["groups"]], "detector": sc["detector"], "exact": sc["exact"], "dec": sc["dec"], "dev": list(sc["dev"]), "couple": list(sc["couple"]), "fault": sc["fault"],
+           "tracker": sc["tracker"], "observed": list(sc["observed"]), "groups": [list(g) for g in sc["groups"]], "detector": sc["detector"], "exact": sc["exact"], "dec": sc["dec"], "dev": list(sc["dev"]), "couple": list(sc["couple"]), "fault": sc["fault"], "splits": fl(sc["splits"]),
            "arrS": [[fl(c) for c in n] for n in sc["arrS"]],
            "batchS": [[list(c) for c in n] for n in sc["batchS"]],
            "svcS": [[fl(c) if c else [F(1)] for c in n] for n in sc["svcS"]],
